@@ -554,10 +554,12 @@ pub fn ci_wilson(
     let low = (mean - span).max(0.);
     let high = (mean + span).min(1.);
 
+    // with a one-sided level below 1/2 the critical value is negative and the finite bound is the
+    // other root: it can be rounded past the far end as well (e.g., 2^53 trials with 3 failures)
     match confidence {
         Confidence::TwoSided(_) => Interval::new(low, high).map_err(|e| e.into()),
-        Confidence::UpperOneSided(_) => Interval::new(low, 1.).map_err(|e| e.into()),
-        Confidence::LowerOneSided(_) => Interval::new(0., high).map_err(|e| e.into()),
+        Confidence::UpperOneSided(_) => Interval::new(low.min(1.), 1.).map_err(|e| e.into()),
+        Confidence::LowerOneSided(_) => Interval::new(0., high.max(0.)).map_err(|e| e.into()),
     }
 }
 
